@@ -93,6 +93,15 @@ def chain_into(ns, ctx, leg, t):
         ctx.count('derived_set_refused_the_edit(read-only object)')      # a set that cannot be edited cannot be corrupted this way
 
 
+AFTER_USE = [False]
+
+
+def _case(d):
+    if AFTER_USE[0]:
+        d = dict(d, after_use=True)
+    return d
+
+
 def enumerate_catalogue(ns, ctx):
     cat = catalogue(ns)
     ctx.info['catalogue_size'] = len(cat)
@@ -103,10 +112,10 @@ def enumerate_catalogue(ns, ctx):
         ctx.bucket('const', name)
         m = NAME.match(name)
         if not m:
-            ctx.violation('catalogue:name-not-in-convention', {'constant': name}, {})
+            ctx.violation('catalogue:name-not-in-convention', _case({'constant': name}), {})
             continue
         if str(t.from_datum).lower() != m.group(1) or str(t.to_datum).lower() != m.group(2):
-            ctx.violation('catalogue:label-differs-from-name', {'constant': name}, {'from': t.from_datum, 'to': t.to_datum})
+            ctx.violation('catalogue:label-differs-from-name', _case({'constant': name}), {'from': t.from_datum, 'to': t.to_datum})
     # --- forward / reverse pairs ---
     for name, t in cat.items():
         m = NAME.match(name)
@@ -124,12 +133,12 @@ def enumerate_catalogue(ns, ctx):
         ctx.bucket('pair', name)
         bad = [p for p in hx.P14 if getattr(r, p) != -getattr(t, p)]
         if bad:
-            ctx.violation('catalogue:reverse-not-negation', {'pair': [name, rname]},
+            ctx.violation('catalogue:reverse-not-negation', _case({'pair': [name, rname]}),
                           {p: [getattr(t, p), getattr(r, p)] for p in bad})
         if r.ref_epoch != t.ref_epoch:
-            ctx.violation('catalogue:reverse-epoch-differs', {'pair': [name, rname]}, {'epochs': [str(t.ref_epoch), str(r.ref_epoch)]})
+            ctx.violation('catalogue:reverse-epoch-differs', _case({'pair': [name, rname]}), {'epochs': [str(t.ref_epoch), str(r.ref_epoch)]})
         if (r.from_datum, r.to_datum) != (t.to_datum, t.from_datum):
-            ctx.violation('catalogue:reverse-labels-not-swapped', {'pair': [name, rname]},
+            ctx.violation('catalogue:reverse-labels-not-swapped', _case({'pair': [name, rname]}),
                           {'forward': [t.from_datum, t.to_datum], 'reverse': [r.from_datum, r.to_datum]})
     # --- ITRF triples ---
     itrf = {k: v for k, v in cat.items() if str(v.from_datum).startswith('ITRF') and str(v.to_datum).startswith('ITRF')
@@ -165,7 +174,7 @@ def enumerate_catalogue(ns, ctx):
                     bad[p] = [float(A[p] + B[p]), float(Cc[p])]
             if bad:
                 ctx.violation('catalogue:itrf-triple-inconsistent#' + '+'.join(sorted({ka, kb, kc})),
-                              {'triple': [ka, kb, kc], 'epoch': str(ep)}, bad)
+                              _case({'triple': [ka, kb, kc], 'epoch': str(ep)}), bad)
     ctx.info['itrf_triples'] = ntr
     ctx.sample({'kind': 'triple', 'example': list(itertools.islice((k for k in itrf), 3)), 'epochs': [str(e) for e in epochs]})
 
@@ -320,6 +329,7 @@ def run_shard(spec, ctx):
     if spec['kind'] == 'enumerate':
         if spec.get('after_use'):
             use_catalogue(ns, ctx, rnd)
+            AFTER_USE[0] = True
         enumerate_catalogue(ns, ctx)
     else:
         run_random(ns, ctx, rnd, spec['n'])
@@ -329,6 +339,10 @@ def replay(case, ctx):
     ns = core.load_repo()
     C = ns.constants
     if 'constant' in case or 'pair' in case or 'triple' in case:
+        if case.get('after_use'):
+            # the relation was found broken on the catalogue as it stood after use: use it again first
+            use_catalogue(ns, ctx, random.Random('%s-replay' % ID))
+            AFTER_USE[0] = True
         enumerate_catalogue(ns, ctx)
         return
     if case.get('op') == 'iers2trans':
